@@ -270,6 +270,9 @@ Disowned(cre0, imp0) == (txn.cre \ cre0) \cup added \cup (IF ImportNotCreating T
 \* Not taken (property C11, not this one) while an object about to be disowned is registered as changed - abort
 \* invalidates it first and its only state is lost - or while an object that will have no oid afterwards holds a weak
 \* reference to one that is disowned: the WeakRef keeps the oid it was given
+\* (repaired design only) an imported object that no savepoint has flushed since is registered as changed - the
+\* harness renamed it - so abort invalidates it before it is disowned: it is gone, the slot is free again
+GhostDisowned(D) == (D \cap txn.imp) \ txn.cre
 CanDisown(created, D) ==
   /\ created \cap dirty = {}
   /\ \A s \in (Nodes \ hasOid) \cup D : \A e \in mem[s] : e.kind = "weak" => e.dst \notin D
@@ -284,7 +287,8 @@ Rollback(k) ==
          keep == hasOid \ D IN
      /\ CanDisown(txn.cre \ sp.cre, D)
      /\ hasOid' = keep
-     /\ mem' = [n \in Nodes |-> IF n \in keep THEN Overlay(stored, sp.tmp)[n].e ELSE mem[n]]
+     /\ mem' = [n \in Nodes |-> IF n \in keep THEN Overlay(stored, sp.tmp)[n].e
+                                  ELSE IF n \in GhostDisowned(D) THEN {} ELSE mem[n]]
      /\ stale' = stale \cup ((txn.imp \ sp.imp) \cap keep)
      /\ txn' = [txn EXCEPT !.tmp = sp.tmp, !.cre = sp.cre, !.sps = SubSeq(@, 1, k), !.xadd = @ \ D, !.imp = sp.imp]
   /\ dirty' = {} /\ added' = {}
@@ -298,7 +302,8 @@ Abort ==
          keep == hasOid \ D IN
      /\ CanDisown(txn.cre, D)
      /\ hasOid' = keep
-     /\ mem' = [n \in Nodes |-> IF n \in keep THEN stored[n].e ELSE mem[n]]
+     /\ mem' = [n \in Nodes |-> IF n \in keep THEN stored[n].e
+                                  ELSE IF n \in GhostDisowned(D) THEN {} ELSE mem[n]]
      /\ stale' = stale \cup (txn.imp \cap keep)
   /\ txn' = Txn0 /\ dirty' = {} /\ added' = {}
   /\ Step("Abort")
